@@ -84,7 +84,7 @@ class Conn:
 
 
 class SyncServer:
-    def __init__(self, app, **adj):
+    def __init__(self, app, _family=None, **adj):
         from waitress.adjustments import Adjustments
         from waitress.channel import HTTPChannel
         from waitress.server import TcpWSGIServer
@@ -107,8 +107,10 @@ class SyncServer:
         self.map = {}
         self.disp = CollectDispatcher()
         self.adj = Adjustments(**adj)
-        self.listener = seams.FakeListener(self.kernel, "L")
-        self.server = Srv(app, map=self.map, _start=True, _sock=self.listener, dispatcher=self.disp, adj=self.adj)
+        self.listener = seams.FakeListener(self.kernel, "L", family=_family) if _family is not None else seams.FakeListener(self.kernel, "L")
+        import socket as _s
+        extra = {"sockinfo": (_family, _s.SOCK_STREAM, 0, ("::1", 8080, 0, 0))} if _family == _s.AF_INET6 else {}
+        self.server = Srv(app, map=self.map, _start=True, _sock=self.listener, dispatcher=self.disp, adj=self.adj, **extra)
         self.n = 0
 
     def connect(self, peer=("127.0.0.1", 40001), sndbuf=65536, room=None, via_accept=False):
